@@ -210,9 +210,13 @@ def run(scn, sb):
             return res
         main = [s for s in scheds if s.procs]
         if not main:
-            res['not_judged']['stage_started_no_worker'] = 1
-            res['nontrivial'] = False
-            return res
+            # every stage of the cycle starts worker processes on the unchanged tree.  If none was started through
+            # multiprocessing.Process, the stage's worker management has left the simulator (a Pool, an executor,
+            # threads: DESIGN section 10) and this check CANNOT decide the property for it -- which must not look
+            # like a pass
+            raise RuntimeError('stage %s (n_processors=%r) started no simulated worker process: its worker '
+                               'management escaped the simulator, C14 cannot decide this stage'
+                               % (scn['stage'], scn['cfg'].get('n_processors')))
         # (call ordinal within the stage execution, worker id) for every worker of every pool of the stage
         workers = []
         for ci, s in enumerate(scheds):
